@@ -58,6 +58,13 @@ It will never drop any data except the container by itself.
 This is to be used in custom allocators."#,
     );
 
+    // The uninitialized record never holds any data.
+    scope.raw(
+        r#"unsafe impl<const CAP: usize> Send for RecordUninitialized<CAP> {}
+
+unsafe impl<const CAP: usize> Sync for RecordUninitialized<CAP> {}"#,
+    );
+
     let mut prev_record_spec: Option<RecordSpec> = None;
 
     let mut type_size_assertions = BTreeSet::new();
@@ -72,6 +79,19 @@ This is to be used in custom allocators."#,
             &mut scope,
             &mut type_size_assertions,
         );
+
+        // The data holder is neither `Send` nor `Sync`: a record is when all its data are.
+        let data_types = record_spec
+            .data
+            .iter()
+            .map(|datum| format!("{}, ", datum.details().type_name()))
+            .collect::<String>();
+        for auto_trait in ["Send", "Sync"] {
+            scope.raw(format!(
+                "unsafe impl<const CAP: usize> {} for {}<CAP> where ({}[(); CAP]): {} {{}}",
+                auto_trait, record_spec.capped_record_name, data_types, auto_trait
+            ));
+        }
 
         prev_record_spec = Some(record_spec);
     }
